@@ -37,6 +37,7 @@ type World struct {
 	CodeDist map[string]int
 	Weights  map[string]int // tx kind weights
 	Owner    map[types.Pubkey]Acct
+	GasFromHeld bool // pay the commission in a custom coin the sender holds, half of the time
 	Control  map[types.Pubkey]types.Address // control address where it differs from the owner's (set by accepted EditCandidate)
 	CoinOwner map[types.CoinID]Acct
 	Stakes   []stakeRef
@@ -457,6 +458,17 @@ func (w *World) Gen() *GenTx {
 			continue
 		}
 		gas := w.gasCoin()
+		if w.GasFromHeld && w.R.Bool() {
+			var held []types.CoinID
+			for _, c := range w.Bancor {
+				if w.bal(a, c).Sign() > 0 {
+					held = append(held, c)
+				}
+			}
+			if len(held) > 0 {
+				gas = held[w.R.Intn(len(held))]
+			}
+		}
 		if useFixedGas {
 			gas = fixedGas
 		}
